@@ -672,7 +672,15 @@ let judge_valid f =
     let cf = get f "compactdeep" in
     if (cf.[0] = '1') <> spec then setf c16 (F "Compact accept/reject differs from the grammar (deep nesting)");
     if spec && cf.[1] <> '1' then c17 := F "Compact changes a text without whitespace";
-    if (get f "unmarshal" = "1") <> spec then setf c16 (F "Unmarshal accept/reject differs from the grammar (deep nesting)")
+    if (get f "unmarshal" = "1") <> spec then setf c16 (F "Unmarshal accept/reject differs from the grammar (deep nesting)");
+    (* the public entry points on a deeply nested object: rejected iff ill-formed *)
+    if has f "apideep" && String.length inp > 0 && inp.[0] = '{' then
+      List.iter (fun e -> match String.split_on_char ':' e with
+          | [name; st] ->
+            if st = "panic" || st = "timeout" then vs := ["C04", F (st ^ " in " ^ name ^ " (deep nesting)")]
+            else if spec && st <> "ok" then setf c16 (F (name ^ " rejects a well-formed deeply nested object"))
+            else if (not spec) && st = "ok" then setf c16 (F (name ^ " accepts an ill-formed deeply nested text"))
+          | _ -> ()) (String.split_on_char ';' (get f "apideep"))
   end;
   if has f "compact" then begin
     c17 := P;
